@@ -43,6 +43,10 @@ Lemma tie_lognormal_factor beta g0 :
   = [lnf (log_sigma beta) g0; 1; exp (log_sigma beta * log_sigma beta) - 1; log_sigma beta;
      sqrt (exp (log_sigma beta * log_sigma beta) - 1); 1].
 Proof. autounfold with gen; ops_R; unfold lnf, log_sigma. list_eq deep. Qed.
+(* the same after set_beta: only the last modulation index matters *)
+Lemma tie_lognormal_rebeta beta1 beta g0 :
+  lognormal_rebeta (OO:=ROps) beta1 beta g0 = lognormal_factor (OO:=ROps) beta g0.
+Proof. autounfold with gen; ops_R. list_eq deep. Qed.
 """]
 # (d) boxcar
 for w in range(1, 6):
